@@ -90,7 +90,33 @@ def run_case(c, ns):
             except Exception as e:
                 return {"ok": canon(p), "end": end, "packed": outcome_of_exception(e)}
         if op == "default":
-            return {"ok": canon(cls())}
+            return {"ok": canon(build(c["value"], ns))}
+        if op == "derive":
+            # pack a constructed value, then parse (and re-serialize) inputs derived from its encoding
+            import random
+            rnd = random.Random(c.get("seed", 0))
+            p = build(c["value"], ns)
+            try:
+                raw = p.pack()
+            except Exception as e:
+                return {"packed": outcome_of_exception(e), "derived": []}
+            variants = [(raw, 0)]
+            cuts = list(range(len(raw))) if len(raw) <= c.get("maxcuts", 16) else sorted(rnd.sample(range(len(raw)), c.get("maxcuts", 16)))
+            variants += [(raw[:k], 0) for k in cuts]
+            for _ in range(c.get("flips", 3)):
+                if raw:
+                    b = bytearray(raw)
+                    b[rnd.randrange(len(b))] = rnd.choice([0, 1, 2, 3, 0x80, 0xff, rnd.randrange(256)])
+                    variants.append((bytes(b), 0))
+            for off in c.get("offsets", []):
+                pre = bytes(rnd.choice([0, 10, 58, 65, 255, rnd.randrange(256)]) for _ in range(off))
+                suf = bytes(rnd.choice([0, 10, 58, 65, 255]) for _ in range(rnd.randrange(3)))
+                variants.append((pre + raw + suf, off))
+            out = []
+            for r, off in variants:
+                out.append({"raw": r.hex(), "offset": off,
+                            "outcome": run_case({"cls": c["cls"], "op": "roundtrip", "raw": r.hex(), "offset": off}, ns)})
+            return {"packed": {"ok": raw.hex()}, "derived": out}
         return {"exc": "BadCase"}
     except Exception as e:
         return outcome_of_exception(e)
@@ -107,10 +133,7 @@ def load_module(src, modname, directory):
     return mod
 
 
-def main():
-    payload = json.load(open(sys.argv[1]))
-    d = os.path.dirname(os.path.abspath(sys.argv[1]))
-    sys.path.insert(0, d)
+def run_group(payload, d):
     res = {"defs": {}, "outcomes": []}
     ns = {}
     good = []
@@ -129,7 +152,14 @@ def main():
             res["defs"][blk["name"]] = "%s: %s" % (type(e).__name__, str(e)[:160])
     for c in payload["cases"]:
         res["outcomes"].append(run_case(c, ns))
-    json.dump(res, open(sys.argv[2], 'w'))
+    return res
+
+
+def main():
+    payload = json.load(open(sys.argv[1]))
+    d = os.path.dirname(os.path.abspath(sys.argv[1]))
+    sys.path.insert(0, d)
+    json.dump(run_group(payload, d), open(sys.argv[2], 'w'))
 
 
 if __name__ == '__main__':
